@@ -98,8 +98,13 @@ class Normaliser:
             return False
         body = [s for s in h.body if not (isinstance(s, ast.Expr) and isinstance(s.value, ast.Constant))]
         for n in ast.walk(ast.Module(body=body, type_ignores=[])):
-            if isinstance(n, (ast.Yield, ast.YieldFrom, ast.FunctionDef, ast.Lambda, ast.ClassDef, ast.Global, ast.Nonlocal)):
+            if isinstance(n, (ast.Yield, ast.YieldFrom, ast.FunctionDef, ast.ClassDef, ast.Global, ast.Nonlocal)):
                 return False
+            if isinstance(n, ast.Lambda):
+                # a lambda that only uses its own parameters (a sort key) captures nothing and moves freely
+                own = {a.arg for a in n.args.posonlyargs + n.args.args + n.args.kwonlyargs}
+                if any(isinstance(x, ast.Name) and x.id not in own for x in ast.walk(n.body)):
+                    return False
         rets = [n for n in ast.walk(ast.Module(body=body, type_ignores=[])) if isinstance(n, ast.Return)]
         if len(rets) > 1 or (rets and rets[0] is not body[-1]):
             return False
